@@ -167,6 +167,12 @@ def adaptOp (sch m : Schema) : SeqOp → ROp Sig
   | .index a => .index (adaptArg m a)
   | .count a => .count (adaptArg m a)
 
+/-- the sort keys the model knows apply to the items: the text keys (`e.u`, `len(e.u)`) to scalar
+    members, `len(e)` to sequence members other than MultiValue, `e[<first field>].u` to Dict members
+    whose first field is a scalar -/
+def SortOK (m : Schema) (its : List Sig) (k : SortKey) : Prop :=
+  (∀ s ∈ its, sigKeyOK k s = true) ∧ (k = .len → m.kind ≠ .multi)
+
 /-- **the guard.**  `sch` is the class of the sequence, `m` its member schema, `its` the current
     items (used by `*=` only).
     * arguments: plain values `member_schema(value=…)` accepts, or elements of the member schema;
@@ -174,7 +180,10 @@ def adaptOp (sch m : Schema) : SeqOp → ROp Sig
     * `set(r)`: `r` a list of accepted values, or None / an int (not iterable: returns False);
       str / dict arguments are outside the model;
     * `set_default`: `DefaultOK`;
-    * `sort(key=…)`: scalar members (the keys of the model read `.u`);
+    * `sort()` without key: the items define no ordering — a List (slots), or members that are not
+      themselves sequences (List / Array / MultiValue members are Python lists and compare as such);
+    * `sort(key=…)`: the key applies to every item (`SortOK`; always so for the text keys on
+      Integer / String members: `sortOK_scalar`);
     * `*=` with a positive count: the member schema is not a MultiValue, and the values it
       re-feeds are accepted by the member schema (always so for Integer / String:
       `imul_guard_scalar`). -/
@@ -187,8 +196,17 @@ def OpOK (sch m : Schema) (its : List Sig) : SeqOp → Prop
   | .set (.int _) => True
   | .set _ => False
   | .setDefault => DefaultOK sch m
-  | .sort (some _) _ => ScalarSchema m
+  | .sort (some k) _ => SortOK m its k
+  | .sort none _ => sch.kind = .list ∨ (m.kind ≠ .list ∧ m.kind ≠ .array ∧ m.kind ≠ .multi)
   | .imul c => 0 < c → (m.kind ≠ .multi ∧ m.kind ≠ .slot) ∧ ∀ s ∈ its, WrapOK m (imulRaw s)
+  | _ => True
+
+/-- the part of the `*=` guard that the `(value, u)` abstraction cannot see: no MultiValue inside a
+    member.  `*=` re-feeds `_replica_value(member)`, which lists ALL members of a MultiValue, while a
+    MultiValue compares — and shows as `(value, u)` — by its first member only; with a MultiValue
+    inside, the reference list (which holds `(value, u)`) does not determine the copies. -/
+def ImulDeep (n : Node) : SeqOp → Prop
+  | .imul c => 0 < c → ∀ x ∈ members n, noMulti x = true
   | _ => True
 
 /-- what one call establishes -/
@@ -418,16 +436,52 @@ theorem scalarMembers_of_ok {m : Schema} {n : Node} (h : SeqOK m n) (hscalar : S
     simp only [hk, ItemOK] at this
     exact hsc e (by simpa using this)
 
-theorem sort_refines {m : Schema} {n : Node} (h : SeqOK m n) (hscalar : ScalarSchema m)
-    (hk : n.kind = .list ∨ n.kind = .array ∨ n.kind = .multi) (k : SortKey) (rev : Bool) (next : Nat) :
+theorem sortGate_of_ok {m : Schema} {n : Node} (h : SeqOK m n)
+    (hk : n.kind = .list ∨ n.kind = .array ∨ n.kind = .multi) (k : SortKey) (hs : SortOK m (items n) k) :
+    sortGate k n = true := by
+  unfold sortGate
+  rw [Bool.and_eq_true]
+  refine ⟨List.all_eq_true.mpr (fun s hsm => hs.1 s hsm), ?_⟩
+  by_cases hkl : k = .len
+  · have hmt := members_typed h hk
+    simp only [hkl, ne_eq, not_true_eq_false, decide_false, Bool.false_or]
+    rw [List.all_eq_true]
+    intro x hx
+    have hxs := hmt m h.member x hx
+    have : x.kind ≠ .multi := by unfold Node.kind; rw [hxs]; exact hs.2 hkl
+    cases hxk : x.kind <;> simp_all
+  · simp [hkl]
+
+theorem sort_refines {m : Schema} {n : Node} (h : SeqOK m n)
+    (hk : n.kind = .list ∨ n.kind = .array ∨ n.kind = .multi) (k : SortKey) (hs : SortOK m (items n) k)
+    (rev : Bool) (next : Nat) :
     StepOK m n (.sort (sigLe k rev)) (seqStep n (.sort (some k) rev) next) true := by
   unfold seqStep
-  simp only [h.member, scalarMembers_of_ok h hscalar hk, if_true]
+  simp only [h.member, sortGate_of_ok h hk k hs, if_true]
   have hf := finish h (sortBy (sortLe k rev) n.kids) (fun x hx => h.items x (mem_sortBy.mp hx))
   refine ⟨?_, by intro _; rfl, hf.2⟩
   rw [hf.1]
   simp only [refStep, items]
   exact sortBy_map sig (sortLe k rev) (sigLe k rev) (fun a b => rfl) n.kids
+
+/-- the text keys apply to every item of a sequence of Integer / String members -/
+theorem sortOK_scalar {m : Schema} {n : Node} (h : SeqOK m n)
+    (hk : n.kind = .list ∨ n.kind = .array ∨ n.kind = .multi) (hm : ScalarSchema m) (k : SortKey)
+    (hkey : k = .u ∨ k = .ulen) : SortOK m (items n) k := by
+  refine ⟨?_, by rcases hkey with rfl | rfl <;> (intro hc; cases hc)⟩
+  intro s hs
+  rw [items_eq_members h hk] at hs
+  obtain ⟨x, hx, rfl⟩ := List.mem_map.mp hs
+  have hxs := members_typed h hk m h.member x hx
+  cases x with
+  | mk i sx kids =>
+    simp only [Node.sch] at hxs
+    subst hxs
+    have hsig : sig (.mk i sx kids) = .sc i.val i.u := by
+      unfold sig
+      rcases hm with hm | hm <;> simp [hm]
+    rw [hsig]
+    rcases hkey with rfl | rfl <;> rfl
 
 theorem pop_refines {m : Schema} {n : Node} (h : SeqOK m n) (i : Option Int) (next : Nat) :
     StepOK m n (.pop i) (seqStep n (.pop i) next) true := by
@@ -775,14 +829,32 @@ theorem set_refines {m : Schema} {n : Node} (h : SeqOK m n)
 
 /-! ### key-less sort, `set(non-iterable)`, `set_default`, `*=` -/
 
-theorem sortNoKey_refines {m : Schema} {n : Node} (h : SeqOK m n) (rev : Bool) (next : Nat) :
+theorem sortNoKey_refines {m : Schema} {n : Node} (h : SeqOK m n)
+    (hno : n.sch.kind = .list ∨ (m.kind ≠ .list ∧ m.kind ≠ .array ∧ m.kind ≠ .multi)) (rev : Bool) (next : Nat) :
     StepOK m n .sortNoKey (seqStep n (.sort none rev) next) true := by
+  have hord : noOrderItems n = true := by
+    unfold noOrderItems
+    rcases hno with hl | hm
+    · have : n.kind = .list := hl
+      simp [this]
+    · by_cases hl : n.kind = .list
+      · simp [hl]
+      · simp only [hl, decide_false, Bool.false_or]
+        rw [List.all_eq_true]
+        intro x hx
+        have hx' := h.items x hx
+        simp only [hl, decide_false, ItemOK] at hx'
+        have hxs : x.sch = m := by simpa using hx'
+        have hk1 : x.kind ≠ .list := by unfold Node.kind; rw [hxs]; exact hm.1
+        have hk2 : x.kind ≠ .array := by unfold Node.kind; rw [hxs]; exact hm.2.1
+        have hk3 : x.kind ≠ .multi := by unfold Node.kind; rw [hxs]; exact hm.2.2
+        cases hxk : x.kind <;> simp_all
   unfold seqStep
   simp only [h.member]
   by_cases hl : n.kids.length ≤ 1
   · simp only [hl, if_true]
     exact ⟨rfl, by intro _; simp [refStep, absOut, items, hl], h⟩
-  · simp only [hl, if_false]
+  · simp only [hl, if_false, hord, if_true]
     exact ⟨rfl, by intro _; simp [refStep, absOut, items, hl, excOut], h⟩
 
 /-- `set(None)` / `set(5)`: `del self[:]`, then iterating raises TypeError, which `set` swallows:
@@ -947,7 +1019,8 @@ theorem imulLoop_ok {m : Schema} (vals : List Arg) (hv : ∀ a ∈ vals, ArgOK m
     `extend(values)` where `values` are the members' values (their `.u` for unadaptable text),
     each wrapped afresh by the member schema -/
 theorem imul_refines {m : Schema} {n : Node} (h : SeqOK m n) (hk : SeqKind n) (c : Int)
-    (hg : 0 < c → (m.kind ≠ .multi ∧ m.kind ≠ .slot) ∧ ∀ s ∈ items n, WrapOK m (imulRaw s)) (next : Nat) :
+    (hg : 0 < c → (m.kind ≠ .multi ∧ m.kind ≠ .slot) ∧ ∀ s ∈ items n, WrapOK m (imulRaw s))
+    (hdeep : 0 < c → ∀ x ∈ members n, noMulti x = true) (next : Nat) :
     StepOK m n (.imul c (fun s => wrapSig m (imulRaw s))) (seqStep n (.imul c) next) true := by
   unfold seqStep
   simp only [h.member]
@@ -960,10 +1033,7 @@ theorem imul_refines {m : Schema} {n : Node} (h : SeqOK m n) (hk : SeqKind n) (c
     obtain ⟨hmk, hw⟩ := hg (by omega)
     have hmt := members_typed h hk
     have hie := items_eq_members h hk
-    have hkind : ∀ x ∈ members n, x.kind ≠ .multi ∧ x.kind ≠ .slot := by
-      intro x hx
-      have hxs := hmt m h.member x hx
-      unfold Node.kind; rw [hxs]; exact hmk
+    have hkind : ∀ x ∈ members n, noMulti x = true := hdeep (by omega)
     have hvals : ∀ a ∈ (members n).map (fun x => Arg.plain (imulValue x)), ArgOK m a := by
       intro a ha
       obtain ⟨x, hx, rfl⟩ := List.mem_map.mp ha
@@ -1003,11 +1073,23 @@ theorem imul_guard_scalar {m : Schema} {n : Node} (h : SeqOK m n) (hk : SeqKind 
       rcases hm with hm | hm <;> simp [hm]
     rw [hsig]
     apply adaptScalar_isSome _ hm
-    unfold imulRaw sigValue sigU
+    simp only [imulRaw]
     cases i.val with
     | none => dsimp only; split <;> simp
     | int k => exact Or.inr (Or.inl ⟨k, rfl⟩)
     | str t => exact Or.inr (Or.inr ⟨t, rfl⟩)
+
+/-- scalar members contain no MultiValue -/
+theorem imulDeep_scalar {m : Schema} {n : Node} (h : SeqOK m n) (hk : SeqKind n) (hm : ScalarSchema m) :
+    ∀ x ∈ members n, noMulti x = true := by
+  intro x hx
+  have hxs := members_typed h hk m h.member x hx
+  cases x with
+  | mk i sx kids =>
+    simp only [Node.sch] at hxs
+    subst hxs
+    rw [noMulti]
+    rcases hm with hm | hm <;> simp [hm]
 
 /-! ### the property theorems -/
 
@@ -1019,7 +1101,7 @@ def isSet : SeqOp → Bool | .set _ => true | _ => false
     returns / raises what the list returns / raises (`set` returns its own flag, see
     `set_nonlist_refines`), and every member is still an element of the member schema. -/
 theorem step_refines {m : Schema} {n : Node} (h : SeqOK m n) (hk : SeqKind n) (op : SeqOp)
-    (hop : OpOK n.sch m (items n) op) (next : Nat) :
+    (hop : OpOK n.sch m (items n) op) (hdeep : ImulDeep n op) (next : Nat) :
     StepOK m n (adaptOp n.sch m op) (seqStep n op next) (!isSet op) := by
   cases op with
   | append a => exact append_refines h a hop next
@@ -1037,11 +1119,11 @@ theorem step_refines {m : Schema} {n : Node} (h : SeqOK m n) (hk : SeqKind n) (o
     unfold seqStep
     simp only [h.member]
     exact ⟨by simp [adaptOp, refStep], by intro _; rfl, seqOK_withKids h _ (by simp)⟩
-  | imul c => exact imul_refines h hk c hop next
+  | imul c => exact imul_refines h hk c hop hdeep next
   | sort k rev =>
     cases k with
-    | none => exact sortNoKey_refines h rev next
-    | some k => exact sort_refines h hop hk k rev next
+    | none => exact sortNoKey_refines h hop rev next
+    | some k => exact sort_refines h hk k hop rev next
   | set r =>
     cases r with
     | list xs => exact set_refines h hk xs hop next
@@ -1074,7 +1156,7 @@ def refRun (l : List Sig) (rops : List (ROp Sig)) : List Sig := rops.foldl (fun 
 def HistOK (m : Schema) : Node → Nat → List SeqOp → Prop
   | _, _, [] => True
   | n, next, op :: ops =>
-    OpOK n.sch m (items n) op ∧ HistOK m (seqStep n op next).node (seqStep n op next).next ops
+    (OpOK n.sch m (items n) op ∧ ImulDeep n op) ∧ HistOK m (seqStep n op next).node (seqStep n op next).next ops
 
 /-- **C09 (histories).**  After ANY history of list-protocol calls of the model whose calls
     satisfy the guard, the items are those of the reference list that received the same calls,
@@ -1087,8 +1169,8 @@ theorem run_refines {m : Schema} (ops : List SeqOp) :
   | nil => intro n next h _ _; exact ⟨rfl, h⟩
   | cons op ops ih =>
     intro n next h hk hops
-    obtain ⟨hop, hrest⟩ := hops
-    have hs := step_refines h hk op hop next
+    obtain ⟨⟨hop, hdeep⟩, hrest⟩ := hops
+    have hs := step_refines h hk op hop hdeep next
     have := ih (seqStep n op next).node (seqStep n op next).next hs.inv (seqKind_step hk op next) hrest
     simp only [run, List.foldl_cons, step, List.map_cons, refRun, sch_step] at this ⊢
     rw [this.1, hs.itemsEq]
@@ -1096,29 +1178,43 @@ theorem run_refines {m : Schema} (ops : List SeqOp) :
 
 /-- for Integer / String members the guard of a history is static: it is enough that every call
     satisfies `OpOK` with the `*=` clause dropped (`its := []`) -/
+def TextKeys : SeqOp → Prop
+  | .sort (some k) _ => k = .u ∨ k = .ulen
+  | _ => True
+
 theorem histOK_of_static {m : Schema} (hm : ScalarSchema m) (ops : List SeqOp) :
-    ∀ (n : Node) (next : Nat), SeqOK m n → SeqKind n → (∀ op ∈ ops, OpOK n.sch m [] op) → HistOK m n next ops := by
+    ∀ (n : Node) (next : Nat), SeqOK m n → SeqKind n → (∀ op ∈ ops, OpOK n.sch m [] op ∧ TextKeys op) →
+      HistOK m n next ops := by
   induction ops with
   | nil => intro _ _ _ _ _; trivial
   | cons op ops ih =>
     intro n next h hk hops
-    have hop0 := hops op (by simp)
+    have hop0 := (hops op (by simp)).1
+    have hkeys := (hops op (by simp)).2
     have hop : OpOK n.sch m (items n) op := by
       cases op with
       | imul c => intro _; exact imul_guard_scalar h hk hm
-      | sort k r => cases k <;> exact hop0
+      | sort k r =>
+        cases k with
+        | none => exact Or.inr (by rcases hm with hm | hm <;> simp [hm])
+        | some k => exact sortOK_scalar h hk hm k hkeys
       | set r => cases r <;> exact hop0
       | _ => exact hop0
-    refine ⟨hop, ih _ _ (step_refines h hk op hop next).inv (seqKind_step hk op next) ?_⟩
+    have hdeep : ImulDeep n op := by
+      cases op with
+      | imul c => intro _; exact imulDeep_scalar h hk hm
+      | _ => trivial
+    refine ⟨⟨hop, hdeep⟩, ih _ _ (step_refines h hk op hop hdeep next).inv (seqKind_step hk op next) ?_⟩
     intro o ho
     rw [sch_step]
     exact hops o (by simp [ho])
 
 /-- **C09 (histories, Integer / String members).**  Every history whose arguments are None / int /
-    str values or elements of the member schema — whatever the calls: `*=`, `clear`,
+    str values or elements of the member schema and whose sort keys are the text keys — whatever
+    the calls: `*=`, `clear`,
     `set_default`, key-less `sort`, `set(None)` included. -/
 theorem run_refines_scalar {m : Schema} (hm : ScalarSchema m) (ops : List SeqOp) (n : Node) (next : Nat)
-    (h : SeqOK m n) (hk : SeqKind n) (hops : ∀ op ∈ ops, OpOK n.sch m [] op) :
+    (h : SeqOK m n) (hk : SeqKind n) (hops : ∀ op ∈ ops, OpOK n.sch m [] op ∧ TextKeys op) :
     items (run ⟨n, next⟩ ops).node = refRun (items n) (ops.map (adaptOp n.sch m)) ∧
     SeqOK m (run ⟨n, next⟩ ops).node :=
   run_refines ops n next h hk (histOK_of_static hm ops n next h hk hops)
